@@ -45,3 +45,8 @@ for which, root, stub in (('url', 'url_parse_ipv6', []), ('url_aggregator', 'agg
                     solver='cadical', timeout=1800, object_bits=10,
                     note='%s::parse_ipv6: all safety checks; piece loop and IPv4-in-IPv6 loop cut by their invariants, so the argument does not depend on the input length '
                          '(view of 0..64 bytes; the function itself refuses every length > 45)' % which))
+
+OBLS.append(Obl('C04.url.get_components.aggregator_layout/c12', ['C04', 'C07', 'C02'], 'B(12)', 'c04/url_components.c', roots=['url_get_components', 'url_get_href', 'url_get_href_size'],
+                unwind=14, defines=['STR_CAP=12', 'MEMCPY_BYTEWISE=1'], includes=['spec/urlspec.h', 'spec/scan.h', 'spec/agg_wf.h'], globals=[('omitted', 'const unsigned int')],
+                enums=[('ada::scheme::type', 'NOT_SPECIAL')], solver='cadical', timeout=3000, object_bits=10, bound='href <= 12 bytes',
+                note='ada::url: get_components() + get_href() form the aggregator\'s representation of the same URL (unique WF decomposition), get_href_size() = length'))
